@@ -89,8 +89,8 @@ def known_match(known, pid, case, iobs, model_agrees=False):
 
 def judge(P, case, mobs, iobs, known, sobs=None):
     """-> (status, detail); status in ok | unmodelled | known | violation"""
-    if sobs is not None and sobs not in ("UNMODELLED", "BADCASE") and not P.spec_equal(sobs, iobs) and canon(mobs) == canon(iobs):
-        k = known_match(known, P.id, case, iobs, model_agrees=True)
+    if sobs is not None and sobs not in ("UNMODELLED", "BADCASE") and not P.spec_equal(sobs, iobs) and (canon(mobs) == canon(iobs) or mobs == "UNMODELLED"):
+        k = known_match(known, P.id, case, iobs, model_agrees=canon(mobs) == canon(iobs))
         if k:
             return "known", k["id"]
         return "violation", "implementation differs from the specification: specified %s, observed %s" % (sobs, iobs)
@@ -176,7 +176,17 @@ def run_property(P, tier, seed, replay=None):
     n_dis = sum(1 for o in obligations if o["status"] == "discharged") + (0 if hits else 1) + (0 if tr_broken else 1)
 
     # 3. builds
-    driver = vlib.build_driver()
+    try:
+        driver = vlib.build_driver()
+    except RuntimeError as ex:
+        # the executable model (which reads the tables generated from /repo) no longer builds: nothing can be evaluated
+        rp = vlib.write_replay(P.id, "build", {"property": P.id, "broken_obligation": broken + ["model build (extraction of the executable model over the generated tables)"],
+                                               "log": str(ex)[-3000:]})
+        print("VIOLATION property=%s replay=%s no-failing-input-found" % (P.id, rp))
+        vlib.write_evidence(P.id, tier, seed, {"obligations": n_obl + 1, "discharged": n_dis, "checker_cmd": "make -C coq theories/Props/%s.vo" % P.id,
+                            "trusted_base": TRUSTED_BASE, "explanation": "the executable model does not build over the tables generated from /repo (one more obligation, not discharged)",
+                            "broken_obligations": broken + ["model build"], "evaluations": 0, "distinct_nontrivial": 0, "samples": []}, P.assumptions, time.time() - t0, 1)
+        return 1
     harness, hout = vlib.build_harness(features=P.features)
     if harness is None:
         rp = vlib.write_replay(P.id, "build", {"property": P.id, "broken_obligation": "harness does not build against /repo", "log": hout[-3000:]})
